@@ -6,22 +6,20 @@ pub fn fmt_stub(_args: core::fmt::Arguments<'_>) -> String {
     String::new()
 }
 
-/// Stub for `memchr::memmem::Finder::find` (the real one dispatches on CPUID, which Kani cannot
-/// execute). Assumed contract: index of the first occurrence of the needle, `None` iff absent.
-/// Written for the only needle the crate uses (`DLT_PATTERN`, 4 bytes).
-pub fn find_stub(_f: &memchr::memmem::Finder<'_>, haystack: &[u8]) -> Option<usize> {
-    let needle = crate::parse::DLT_PATTERN;
+/// Stubs for `memchr::arch::x86_64::{avx2,sse2}::packedpair::Finder::is_available` (runtime CPU
+/// feature detection via CPUID, which Kani cannot execute): answer "no SIMD". The real memmem
+/// code then takes its scalar path (Rabin-Karp / Two-Way), which IS verified. Assumption: the
+/// SIMD paths of memchr return what its scalar path returns.
+pub fn no_simd() -> bool {
+    false
+}
+
+/// reference: index of the first occurrence of DLT_PATTERN
+pub fn ref_find_pattern(haystack: &[u8]) -> Option<usize> {
     let n = haystack.len();
-    if n < 4 {
-        return None;
-    }
     let mut i = 0;
     while i + 4 <= n {
-        if haystack[i] == needle[0]
-            && haystack[i + 1] == needle[1]
-            && haystack[i + 2] == needle[2]
-            && haystack[i + 3] == needle[3]
-        {
+        if haystack[i] == 0x44 && haystack[i + 1] == 0x4C && haystack[i + 2] == 0x54 && haystack[i + 3] == 0x01 {
             return Some(i);
         }
         i += 1;
@@ -42,4 +40,25 @@ pub fn bytes_eq(a: &[u8], b: &[u8]) -> bool {
         i += 1;
     }
     true
+}
+
+/// Stub for the CPUID instruction (inline asm, not executable by Kani): reports a CPU without
+/// any optional feature, so std's `is_x86_feature_detected!` answers false and memchr takes its
+/// baseline paths. Assumption: memchr's AVX2 paths return what its baseline paths return.
+pub fn cpuid_count_stub(_leaf: u32, _sub_leaf: u32) -> core::arch::x86_64::CpuidResult {
+    core::arch::x86_64::CpuidResult { eax: 0, ebx: 0, ecx: 0, edx: 0 }
+}
+pub fn cpuid_stub(_leaf: u32) -> core::arch::x86_64::CpuidResult {
+    core::arch::x86_64::CpuidResult { eax: 0, ebx: 0, ecx: 0, edx: 0 }
+}
+
+/// Stub for `crate::parse::forward_to_next_storage_header` used by the message-level
+/// harnesses: it IS the contract of that function (first occurrence of DLT_PATTERN, None iff
+/// absent, rest = input from the occurrence on), which the harnesses c06_forward_* prove for the
+/// real function on the real memchr code. Modular: callers are checked against the contract.
+pub fn fwd_stub(input: &[u8]) -> Option<(u64, &[u8])> {
+    match ref_find_pattern(input) {
+        Some(k) => Some((k as u64, &input[k..])),
+        None => None,
+    }
 }
